@@ -9,14 +9,14 @@ C06 for ATSP: `check_solution_validity` (sorted actions == arange(width of the a
 import Rl4co.Proofs.TspfamAtsp
 import Rl4co.Spec.Atsp
 import Rl4co.Proofs.Sort
+import Rl4co.Proofs.TspfamParams
 
 namespace Rl4co.Atsp
 
 /-- **C06 (ATSP), completeness.** -/
 theorem check_complete (i : Inst) {as : List Nat} (hf : Spec.Atsp.Feasible i.n as) :
     check i as = true := by
-  simp only [check]
-  rw [hf.length_eq]
+  rw [check_eq, hf.length_eq]
   exact (sortedIsRange_iff i.n as).mpr ((Spec.Tsp.feasible_iff_perm i.n as).mp hf)
 
 /-- full soundness, as the property demands it -/
@@ -27,7 +27,7 @@ def check_sound_statement : Prop :=
 theorem check_sound_counterexample : ¬ check_sound_statement := by
   intro h
   have hc : check ⟨5, fun _ _ => 0⟩ [0, 1, 2] = true := by
-    simp only [check]
+    rw [check_eq]
     exact (sortedIsRange_iff 3 [0, 1, 2]).mpr (List.Perm.refl _)
   have := (h ⟨5, fun _ _ => 0⟩ [0, 1, 2] hc).once 4 (by decide)
   simp at this
@@ -35,15 +35,18 @@ theorem check_sound_counterexample : ¬ check_sound_statement := by
 /-- **C06 (ATSP), soundness for full-width action lists.** -/
 theorem check_sound_partial (i : Inst) {as : List Nat} (hlen : as.length = i.n)
     (hc : check i as = true) : Spec.Atsp.Feasible i.n as := by
-  simp only [check, hlen] at hc
+  rw [check_eq, hlen] at hc
   exact (Spec.Tsp.feasible_iff_perm i.n as).mpr ((sortedIsRange_iff i.n as).mp hc)
 
 /-- what acceptance means in general: a permutation of `0..L-1`, `L` the width of the action list -/
 theorem check_iff (i : Inst) (as : List Nat) :
     check i as = true ↔ Spec.Atsp.Feasible as.length as := by
-  simp only [check]
-  rw [sortedIsRange_iff]
+  rw [check_eq, sortedIsRange_iff]
   exact (Spec.Tsp.feasible_iff_perm as.length as).symm
+
+theorem feasible_iff_check_and_width (i : Inst) (as : List Nat) :
+    Spec.Atsp.Feasible i.n as ↔ (check i as = true ∧ as.length = i.n) :=
+  ⟨fun hf => ⟨check_complete i hf, Spec.Tsp.Feasible.length_eq hf⟩, fun ⟨hc, hl⟩ => check_sound_partial i hl hc⟩
 
 /-- Non-vacuity. -/
 example : check ⟨3, fun _ _ => 0⟩ [2, 0, 1] = true :=
